@@ -191,13 +191,15 @@ class PKESessionKeyV3(PKESessionKey):
         self.encrypter = bytearray(8)
         self.pkalg = 0
         self.ct = None
+        # the encrypted session key as received, when its algorithm has no ciphertext class (ct is None)
+        self._opaque_ct = bytearray()
 
     def __bytearray__(self):
         _bytes = bytearray()
         _bytes += super(PKESessionKeyV3, self).__bytearray__()
         _bytes += binascii.unhexlify(self.encrypter.encode())
         _bytes += bytearray([self.pkalg])
-        _bytes += self.ct.__bytearray__() if self.ct is not None else b'\x00' * (self.header.length - 10)
+        _bytes += self.ct.__bytearray__() if self.ct is not None else self._opaque_ct
         return _bytes
 
     def __copy__(self):
@@ -207,6 +209,7 @@ class PKESessionKeyV3(PKESessionKey):
         sk.pkalg = self.pkalg
         if self.ct is not None:
             sk.ct = copy.copy(self.ct)
+        sk._opaque_ct = self._opaque_ct[:]
 
         return sk
 
@@ -302,7 +305,10 @@ class PKESessionKeyV3(PKESessionKey):
             self.ct.parse(packet)
 
         else:  # pragma: no cover
-            del packet[:(self.header.length - 18)]
+            # its fields are not known: it is the remainder of the packet, after version, key id and algorithm
+            pend = self.header.length - 10
+            self._opaque_ct = packet[:pend]
+            del packet[:pend]
 
 
 class Signature(VersionedPacket):
